@@ -177,6 +177,8 @@ def catalogue():
     add('real_imag_of_input', lambda x: A.real(x) * 1.5 + A.imag(x) * 0.5, [(V, 'R')], ['cplx_replay', 'nonunique'])     # imag of a real value: only meaningful for the C05 complex replays
     add('cplx:exp_sin_mul', lambda x: A.exp(0.3 * x) * A.sin(x) + x * x, [(V, 'R')], ['cplx_replay'])
     add('cplx:real_of_product', lambda x: A.real(x * x) + 2.0 * A.real(A.exp(0.2 * x)), [(V, 'R')], ['cplx_replay'])
+    add('cplx:conjugate_of_input', lambda x: A.real(A.conjugate(x) * x) + A.real(A.conjugate(x * x)), [(V, 'R')], ['cplx_replay'])
+    add('cplx:abs2_via_conj', lambda x: A.real(x.conj() * A.exp(0.3 * x)) + A.imag(A.conjugate(x) * 2.0), [(V, 'R')], ['cplx_replay', 'nonunique'])
     # --- binary arithmetic, broadcasting, constants on either side
     for nm, op in [('add', lambda a, b: a + b), ('sub', lambda a, b: a - b), ('mul', lambda a, b: a * b), ('div', lambda a, b: a / b)]:
         dd = 'nz' if nm == 'div' else 'R'
@@ -229,6 +231,10 @@ def catalogue():
     add('prod:zero_factor', lambda x: A.prod(x), [((4,), 'Rzero')], ['reduce', 'zero-base'])
     add('prod:zero_factor_in_some_directions', lambda x: A.prod(x), [((4,), 'Rzero_mixed')], ['reduce', 'zero-base'])          # exact zeros among the factors (in some directions only)
     add('trace', lambda X: A.trace(X), [(M, 'R')], ['reduce'])
+    add('trace:of_view', lambda X: A.trace(X[:2, 1:]) + A.trace(X[::-1, :]), [(M, 'R')], ['reduce', 'view'])
+    add('trace:of_transpose', lambda X: A.trace((X * X).T) + A.trace(X.T[1:, 1:]), [(M, 'R')], ['reduce', 'view'])
+    add('sum:of_views', lambda X: A.sum(X.T[::2]) + A.sum(X[:, ::-1][1:] * X[1:]), [(M, 'R')], ['reduce', 'view'])
+    add('prod:of_view', lambda X: A.prod(X[:, 1]) + A.prod(X.T[2][::-1]), [(M, 'nz')], ['reduce', 'view'])
     # --- dot / outer of every rank combination
     add('dot:vv', lambda a, b: A.dot(a, b), [(V, 'R'), (V, 'R')], ['dot'])
     add('dot:Mv', lambda a, b: A.dot(a, b), [((2, 3), 'R'), (V, 'R')], ['dot'])
@@ -308,6 +314,11 @@ def catalogue():
     add('fft:axis0', lambda X: A.real(A.fft.fft(X, axis=0)), [((3, 2), 'R')], ['fft', 'kwargs'])
     add('ifft:axis0', lambda X: A.imag(A.fft.ifft(X, axis=0)) + A.real(A.fft.ifft(X, axis=0)), [((3, 2), 'R')], ['fft', 'kwargs'])
     add('conjugate', lambda x: A.real(A.conjugate(A.fft.fft(x)) * A.fft.fft(x)), [((4,), 'R')], ['fft'])
+    # elementary functions and arithmetic applied to complex intermediates of a real program
+    for nm, g in [('sqrt', lambda z: A.sqrt(z + 9.0)), ('exp', lambda z: A.exp(0.2 * z)), ('log', lambda z: A.log(z + 9.0)), ('sin', lambda z: A.sin(0.3 * z)),
+                  ('cos', lambda z: A.cos(0.3 * z)), ('square', lambda z: A.square(z)), ('reciprocal', lambda z: A.reciprocal(z + 9.0)), ('pow2.5', lambda z: (z + 9.0) ** 2.5),
+                  ('pow3', lambda z: z ** 3), ('div', lambda z: z / (z + 9.0)), ('tan', lambda z: A.tan(0.1 * z)), ('expm1', lambda z: A.expm1(0.2 * z)), ('log1p', lambda z: A.log1p(0.1 * z))]:
+        add('fft:%s_of_spectrum' % nm, (lambda g: lambda x: A.real(A.fft.ifft(g(A.fft.fft(x)))) + A.imag(g(A.fft.fft(x))))(g), [((4,), 'small')], ['fft', 'complex-intermediate'])
     add('fft:matrix_default_axis', lambda X: A.real(A.fft.fft(X)) - A.imag(A.fft.fft(X)), [((3, 2), 'R')], ['fft'])
     add('fft:axis-1', lambda X: A.real(A.fft.fft(X, axis=-1)) + A.imag(A.fft.fft(X, axis=-1)), [((3, 4), 'R')], ['fft', 'kwargs'])
     add('fft:axis1', lambda X: A.real(A.fft.fft(X, axis=1)), [((2, 3), 'R')], ['fft', 'kwargs'])
